@@ -29,7 +29,7 @@ CfgOf(f) == IF f = "docstring" THEN [style |-> "rest", edd |-> TRUE, et |-> TRUE
 CommonTyps == {"int", "float", "str", "bool", "Opt_int", "Opt_float", "Opt_str", "Opt_bool", "Lit"}
 CommonParams == {p \in ParamsOver(CommonTyps, Defs \ {"code"}, {"plain"}) : p.def # "absent"}   \* every parameter has a default
 \* C08's domain is hostile on purpose: untyped entries, descriptions containing the type-hint trigger words
-TrigDocs == {"trig_number", "trig_whether", "trig_listof", "trig_or", "trig_default", "doc_colon", "doc_paren", "doc_question", "multi"}
+TrigDocs == {"trig_number", "trig_whether", "trig_listof", "trig_or", "trig_default", "doc_colon", "doc_paren", "doc_question", "multi", "ellipsis"}
 FixParams == ParamsOver(Typs, Defs \ {"code"}, {"plain", "dot"}) \cup ParamsOver({"absent", "int", "str", "Dotted"}, {"absent", "None", "int_pos", "str"}, TrigDocs)
 Dom == IF Mode = "chain" THEN CommonParams ELSE FixParams
 SmallDom == IF Mode = "chain" THEN {p \in CommonParams : p.typ \in {"int", "Opt_str", "Lit"}}
@@ -54,9 +54,9 @@ Nm(f, x) == IF f \in DocFmts THEN D!Norm(CfgOf(f), x) ELSE IF f \in DataFmts THE
 \* the domain on which a format is quantified in C08
 JsonTyps == {"int", "float", "str", "bool", "dict", "Opt_int", "Opt_float", "Opt_str", "Opt_bool", "Opt_dict", "Lit"}
 InFixDomain(f, x) ==
-  CASE f = "json_schema" -> \A k \in 1..Len(x.params) : x.params[k].typ \in JsonTyps /\ x.params[k].doc \in {"plain", "dot"}
+  CASE f = "json_schema" -> \A k \in 1..Len(x.params) : x.params[k].typ \in JsonTyps /\ x.params[k].doc \in {"plain", "dot", "ellipsis"}
     [] f \in {"sqlalchemy", "sqlalchemy_table"} ->
-         \A k \in 1..Len(x.params) : x.params[k].typ \in JsonTyps /\ x.params[k].doc \in {"plain", "dot"}
+         \A k \in 1..Len(x.params) : x.params[k].typ \in JsonTyps /\ x.params[k].doc \in {"plain", "dot", "ellipsis"}
                                        /\ (IsOpt(x.params[k].typ) => x.params[k].def \in {"absent", "None"})
     [] f \in {"docstring_google", "docstring_numpydoc"} -> SigLegal(x.params) /\ \A k \in 1..Len(x.params) : x.params[k].doc \in {"plain", "dot"}
     [] OTHER -> TRUE
